@@ -116,6 +116,7 @@ class Lowerer:
         self.enum_vals = {}
         self.static_locals = []
         self.edges = {}
+        self.blobs = []
         self.gedges = {}
         self.cur_name = None
         for d in docs:
@@ -205,6 +206,10 @@ class Lowerer:
         return (sc + '::' if sc else '') + self._rec_local(n)
 
     def qualname(self, decl):
+        if decl.get('kind') in ('CXXMethodDecl', 'CXXConstructorDecl', 'CXXDestructorDecl', 'CXXConversionDecl'):
+            rec = self.func_record(decl)
+            if rec is not None:
+                return (self.record_name(rec) or '?') + '::' + decl.get('name', '?')
         sc = self.scope_name(decl)
         return (sc + '::' if sc else '') + decl.get('name', '?')
 
@@ -277,8 +282,28 @@ class Lowerer:
             else:
                 break
         s = self._strip_cv(s)
+        r = self.resolve_typedef(s)
+        if r is not None and r != s:
+            return self._ctype_str(r + ' ' + ptrs.replace('*', ' *') + arr, decl_name, None)
         base = self.base_type(s, sugar)
         return ('%s %s%s%s' % (base, ptrs, name, arr)).strip()
+
+    def resolve_typedef(self, s):
+        if not hasattr(self, '_typedefs'):
+            self._typedefs = {}
+            for n in self.byid.values():
+                if n.get('kind') in ('TypedefDecl', 'TypeAliasDecl') and n.get('name') and 'type' in n:
+                    qn = self.qualname(n)
+                    t = n['type']
+                    u = t.get('desugaredQualType') or t.get('qualType')
+                    self._typedefs.setdefault(qn, u)
+                    self._typedefs.setdefault(self.norm_targs(qn), u)
+        if s in BUILTIN_TYPES:
+            return None
+        for k in (s, 'muscle::' + s, self.norm_targs(s), self.norm_targs('muscle::' + s)):
+            if k in self._typedefs:
+                return self._typedefs[k]
+        return None
 
     def base_type(self, s, sugar=None):
         if s in BUILTIN_TYPES:
@@ -296,7 +321,22 @@ class Lowerer:
             return 'int'
         if re.match(r'^(muscle::)?[A-Za-z_][A-Za-z0-9_:]*$', s) and ('::' in s2 and s2.split('::')[0] in [r.split('::')[-1] for r in self.records]):
             return 'int'   # nested enum of a known class
+        if s2 in self.declared_records() or s in self.declared_records():
+            sn = san(s)
+            self.struct_defs.setdefault(sn, None)    # incomplete type: usable through pointers only
+            return 'struct ' + sn
         raise Unsupported('type %r' % s)
+
+    def declared_records(self):
+        if not hasattr(self, '_declrecs'):
+            self._declrecs = set()
+            for n in self.byid.values():
+                if n.get('kind') in ('CXXRecordDecl', 'ClassTemplateSpecializationDecl') and n.get('name'):
+                    rn = self.record_name(n)
+                    if rn:
+                        self._declrecs.add(rn)
+                        self._declrecs.add(rn.replace('muscle::', ''))
+        return self._declrecs
 
     def enum_names(self):
         if not hasattr(self, '_enum_names'):
@@ -329,18 +369,29 @@ class Lowerer:
         for b in self.record_bases(rec):
             bt = self._strip_cv(b['type'].get('desugaredQualType') or b['type']['qualType'])
             brn, brec = self.find_record(bt)
-            if brec is None:
-                raise Unsupported('base class %s of %s not found' % (bt, rn))
-            if self.record_fields(brec) or self.record_bases(brec):
-                lines.append('  struct %s __base_%s;' % (self.emit_struct(brn, brec), san(brn)))
+            try:
+                if brec is None:
+                    raise Unsupported('base class %s of %s not found' % (bt, rn))
+                if self.record_fields(brec) or self.record_bases(brec) or brec.get('definitionData', {}).get('isPolymorphic'):
+                    lines.append('  struct %s __base_%s;' % (self.emit_struct(brn, brec), san(brn)))
+            except Unsupported as e:
+                # subobject that cannot be lowered: an opaque blob (its layout is NOT modelled; DESIGN 2.3)
+                lines.append('  char __opaque_base_%s[8];' % san(bt))
+                self.blobs.append('%s: base %s (%s)' % (rn, bt, e))
         if rec.get('definitionData', {}).get('isPolymorphic') and not any('__base_' in l for l in lines):
             lines.append('  void *__vptr;')
         for f in self.record_fields(rec):
-            if f.get('isBitfield'):
-                raise Unsupported('bitfield in ' + rn)
             if not f.get('name'):
-                raise Unsupported('anonymous member in ' + rn)
-            lines.append('  %s;' % self.ctype(f['type'], f['name']))
+                lines.append('  char __opaque_anon%d[8];' % len(lines))
+                self.blobs.append('%s: anonymous member' % rn)
+                continue
+            try:
+                if f.get('isBitfield'):
+                    raise Unsupported('bitfield')
+                lines.append('  %s;' % self.ctype(f['type'], f['name']))
+            except Unsupported as e:
+                lines.append('  char __opaque_%s[8];' % f['name'])
+                self.blobs.append('%s: field %s (%s)' % (rn, f['name'], e))
         if not lines:
             lines.append('  char __empty;')
         self.struct_defs[sn] = 'struct %s {\n%s\n};\n' % (sn, '\n'.join(lines))
@@ -633,7 +684,7 @@ class Lowerer:
         return [c for c in n.get('inner', []) or [] if isinstance(c, dict) and c.get('kind') not in ('FullComment',)]
 
     def strip(self, e):
-        while e.get('kind') in PASS_THROUGH or (e.get('kind') == 'ImplicitCastExpr' and e.get('castKind') in ('NoOp', 'ConstructorConversion')):
+        while (e.get('kind') in PASS_THROUGH and e.get('kind') != 'SubstNonTypeTemplateParmExpr') or (e.get('kind') == 'ImplicitCastExpr' and e.get('castKind') in ('NoOp', 'ConstructorConversion')):
             ch = self.children(e)
             if not ch:
                 break
@@ -881,6 +932,8 @@ class Lowerer:
         k = n.get('kind')
         self.kinds_printed[k] = self.kinds_printed.get(k, 0) + 1
         ch = self.children(n)
+        if k == 'SubstNonTypeTemplateParmExpr':
+            ch = [c for c in ch if not c.get('kind', '').endswith('Decl')]
         if k in PASS_THROUGH:
             e = self.expr(ch[0], stmt)
             return '(' + e + ')' if k == 'ParenExpr' else e
